@@ -341,8 +341,24 @@ def run_shard(spec):
         finally:
             if fz.pre is not None:
                 fz.pre.close()
+        if spec["shard"] % 4 == 1:
+            from skv.props import c09
+            env.set_retarget(ref.RETARGET_PERIOD)
+            route_lane(fz.v, fz.c, rng, 3 if quick else 20, c09.all_classes(), "c06r")
     return {"evaluations": fz.c["bit_flips"] + fz.c["truncations"], "distinct": fz.distinct, "violations": fz.viol,
             "counters": fz.c, "samples": fz.samples, "exhaustive": True}
+
+
+def route_lane(add_violation, counters, rng, nhist, classes, tag):
+    """this property on the routes by which a RUNNING NODE takes blocks (relay and download, real store): histories in which the
+    node had asked a peer for blocks, blocks were announced, arrived unrequested, late, before their parent, or again with another
+    body (the stories of skv/props/c09.py), built from this check's classes of rule-breaking blocks"""
+    from skv.props import c09
+    mon = c09.route_histories(rng, nhist, 14, classes, tag)
+    counters["route_lane_deliveries"] = counters.get("route_lane_deliveries", 0) + mon.c.get("deliveries", 0)
+    counters["route_lane_stories"] = counters.get("route_lane_stories", 0) + mon.c.get("download_route_stories", 0)
+    for v in mon.viol:
+        add_violation("node-route:" + v["key"], v["msg"], v["witness"])
 
 
 def finalize(m, tier):
